@@ -235,7 +235,7 @@ pub struct DataGen {
     pub pld_len: usize,
     pub fcnt: u32,
     pub with_app: bool,
-    /// 0 = exact, 1 = exact-1, 2 = 256, 3 = random
+    /// 0 = exact, 1 = exact-1, 2 = 256, 3 = random, 4 = 1024
     pub bufsel: u8,
 }
 
@@ -260,6 +260,7 @@ pub fn data_op(rng: &mut Rng, g: &DataGen) -> String {
         0 => total,
         1 => total.saturating_sub(1),
         2 => 256,
+        4 => 1024,
         _ => rng.below(300) as usize,
     };
     let fill = rng.next() as u8;
@@ -402,6 +403,32 @@ pub fn run(tier: &str, seed: u64, dir: &str) {
         sink.case(&op, &a, &class_of("data/refusals", Some(&g), &a), true);
     }
 
+    // 4b. lengths beyond one octet: FOpts of 16..=31, 240..=290, 500..=530 and 1000 octets (a length
+    //     check done on a truncated length would let 256..=271 through) and FRMPayloads of 243..=300
+    //     and 500..=520 octets, into a buffer that would hold the frame (1024) or exactly fits it
+    let mut long_fopts: Vec<usize> = (16..=31).chain(240..=290).chain(500..=530).collect();
+    long_fopts.push(1000);
+    for (i, fl) in long_fopts.iter().enumerate() {
+        if !thorough && i % 2 == 1 && !(255..=272).contains(fl) {
+            continue;
+        }
+        for kind in [0u8, 2] {
+            let g = DataGen { ft: (i % 4) as u8, flags: rng.below(16) as u8, fopts_len: *fl, kind, pld_len: if kind == 0 { 0 } else { 3 }, fcnt: pick_fcnt(&mut rng), with_app: true, bufsel: if i % 3 == 0 { 0 } else { 4 } };
+            let op = data_op(&mut rng, &g);
+            let a = eval(&op);
+            sink.case(&op, &a, &class_of("data/long-fopts", Some(&g), &a), true);
+        }
+    }
+    for (i, pl) in (243usize..=300).chain(500..=520).enumerate() {
+        if !thorough && i % 3 != 0 && !(254..=258).contains(&pl) {
+            continue;
+        }
+        let g = DataGen { ft: (i % 4) as u8, flags: 0, fopts_len: if i % 2 == 0 { 0 } else { 3 }, kind: if i % 5 == 0 { 1 } else { 2 }, pld_len: pl, fcnt: pick_fcnt(&mut rng), with_app: true, bufsel: if i % 3 == 0 { 0 } else { 4 } };
+        let op = data_op(&mut rng, &g);
+        let a = eval(&op);
+        sink.case(&op, &a, &class_of("data/long-payload", Some(&g), &a), true);
+    }
+
     // 5. JoinRequest
     let n_jr = if thorough { 20000 } else { 800 };
     for i in 0..n_jr {
@@ -497,7 +524,7 @@ pub fn run(tier: &str, seed: u64, dir: &str) {
 
     sink.finish(
         dir,
-        "real DataFrame/JoinRequest/JoinAccept::build_into (DefaultCrypto and DefaultNetworkCrypto, seeded choice) vs Lean model vs Lean specification, compared as frame bytes or refusal kind; the rest of the caller's buffer is also checked to be untouched. Generators: every FRMPayload length 0..=242 (random content, both key kinds); 4 frame types x 16 flag combinations x FOpts length 0..=17; counters {0,1,0xFFFF,0x10000,0x1FFFF,2^32-1,random} x types x payload kinds x buffer {exact, exact-1, 256}; forbidden descriptions alone and combined; JoinRequest; JoinAccept without / type-0 / type-1 CFList, all 256 DLSettings and RxDelay bytes; AES-128 encrypt/decrypt blocks and CMAC tags (lengths 0..=299) of the Lean AES vs the aes/cmac crates. Every case is non-trivial (a concrete frame, refusal, block or tag is compared); distinct = distinct op lines.",
+        "real DataFrame/JoinRequest/JoinAccept::build_into (DefaultCrypto and DefaultNetworkCrypto, seeded choice) vs Lean model vs Lean specification, compared as frame bytes or refusal kind; the rest of the caller's buffer is also checked to be untouched. Generators: every FRMPayload length 0..=242 (random content, both key kinds); 4 frame types x 16 flag combinations x FOpts length 0..=17; counters {0,1,0xFFFF,0x10000,0x1FFFF,2^32-1,random} x types x payload kinds x buffer {exact, exact-1, 256}; forbidden descriptions alone and combined; FOpts of 16..=31 / 240..=290 / 500..=530 / 1000 octets and FRMPayloads of 243..=300 / 500..=520 octets into fitting buffers; JoinRequest; JoinAccept without / type-0 / type-1 CFList, all 256 DLSettings and RxDelay bytes; AES-128 encrypt/decrypt blocks and CMAC tags (lengths 0..=299) of the Lean AES vs the aes/cmac crates. Every case is non-trivial (a concrete frame, refusal, block or tag is compared); distinct = distinct op lines.",
         false,
         serde_json::json!({"payload_lengths_covered": "0..=242 each", "counters": COUNTERS}),
     );
